@@ -183,6 +183,23 @@ pub fn generate(thorough: bool, r: &mut Rng, em: &mut Emit) {
         }
         c += 1;
     }
+    // adjacency: every ordered pair (and, sampled / in thorough all, triples) over the characters that the escaping and the
+    // lexer treat specially -- an escape applied to already escaped text, or read across a character boundary, shows only here
+    let alpha: Vec<char> = vec!['\\', '0', 'u', '{', '}', '"', '\'', 'n', 't', 'r', '\0', 'a', 'x', '4', '1', ' ', '\n'];
+    for &x in &alpha { for &y in &alpha {
+        let s: String = [x, y].iter().collect();
+        em.stat("text.adjacent");
+        em.case_nt("c11.print_text", &[scalars_sx(&s)], true);
+        em.case_nt("c11.print_label", &[scalars_sx(&s)], true);
+        let printed = format!("{}", IDLValue::Text(s.clone()));
+        em.case_nt("c11.lex_text", &[sx::hex(printed.as_bytes())], true);
+        for &z in &alpha {
+            if !thorough && !r.coin(1, 6) { continue; }
+            let s3: String = [x, y, z].iter().collect();
+            em.case_nt("c11.print_text", &[scalars_sx(&s3)], true);
+            em.case_nt("c11.print_label", &[scalars_sx(&s3)], true);
+        }
+    } }
     for _ in 0..400 * scale {
         let s = gen_text(r);
         em.stat("text.random");
